@@ -178,8 +178,10 @@ def coq_eval(tag, preamble, body, timeout=600):
     path = os.path.join(d, tag + '.v')
     with open(path, 'w') as f:
         f.write(preamble + '\n' + body + '\n')
-    p = subprocess.run(['timeout', str(timeout), 'coqc'] + COQFLAGS + [os.path.join('cases', tag + '.v')], cwd=COQ,
-                       stdout=subprocess.PIPE, stderr=subprocess.PIPE, text=True)
+    # large literals (thorough tier) overflow coqc's default 8 MB stack while being parsed / printed: lift the limit for the child
+    import shlex
+    cmd = 'ulimit -s unlimited 2>/dev/null || ulimit -s 1000000 2>/dev/null; exec ' + ' '.join(shlex.quote(x) for x in ['timeout', str(timeout), 'coqc'] + COQFLAGS + [os.path.join('cases', tag + '.v')])
+    p = subprocess.run(['bash', '-c', cmd], cwd=COQ, stdout=subprocess.PIPE, stderr=subprocess.PIPE, text=True)
     for ext in ('.vo', '.vok', '.vos', '.glob'):
         try: os.unlink(os.path.join(d, tag + ext))
         except OSError: pass
